@@ -356,6 +356,8 @@ def run(ctx, tier, res, tag=''):
                     res.notes.append(info)
             else:
                 res.undec(info)
+    from .. import promises
+    promises.report(ctx, res, FC.accessor_functions(ctx, 'all') + [fn for (_, fn) in c04.init_tasks(ctx)], promises.MEMORY_KINDS, tag)
     res.rule = ('H1-H3: set/init/get lemmas for every entry point (as C02/C04/C01); H4: measured write footprints pairwise disjoint; '
                 'H5: no access outside arguments and constant tables; then by induction every history yields the reference encoding. '
                 'Additionally every ordered pair of writes per format and whole init+write-all+rewrite+read-all histories in forward, '
